@@ -3117,8 +3117,10 @@ idx_t dtw_wps_loc_columns(DTWWps* p, idx_t r, idx_t *cb, idx_t *ce, idx_t l1, id
     idx_t ri_width = p->width;
     idx_t min_ci, max_ci;
 
-    // First row is inf
+    // First row is inf (and a row that does not exist has no columns)
     ri_width = p->width;
+    *cb = 0;
+    *ce = 0;
 
     // A.
     min_ci = 0;
